@@ -249,7 +249,7 @@ pub fn run(rep: &mut Report) {
     }
     // interior scan (round 8): evenly spread, unremarkable (day, nanosecond of day) pairs over years 0001-9999 in every scale
     {
-        let nsc: u64 = if q { 50_000 } else { 8_000_000 };
+        let nsc: u64 = if q { 50_000 } else { 1_500_000 };
         rep.bound("interior_scan_points", nsc);
         let (d0, d1) = (days1900(1, 1, 1) as i128, days1900(9999, 12, 31) as i128);
         sweep(rep, "c09.scan_fields", 9 * nsc, |i, out| {
